@@ -56,7 +56,7 @@ def identity (n : Nat) : Res (Arr Int) :=
 def tri (n : Nat) (m : Option Nat) (k : Option Int) : Res (Arr Int) :=
   let m := m.getD n
   let k := k.getD 0
-  Arr.new ((List.range n).flatMap fun i => (List.range m).map fun j =>
+  Arr.new ((List.range n).flatMap fun (i : Nat) => (List.range m).map fun (j : Nat) =>
       if (j : Int) ≤ (i : Int) + k then (1 : Int) else 0) [n, m]
 
 /-! ## triangular masks (`create_from.rs:206-214`, `232-256`) -/
